@@ -81,7 +81,8 @@ class NpyFileChunkStore(ChunkStore):
     """
 
     def __init__(self, path, direct_write=False):
-        super().__init__({IOError: ChunkNotFound, ValueError: ChunkNotFound})
+        super().__init__({IOError: ChunkNotFound, ValueError: ChunkNotFound,
+                          EOFError: ChunkNotFound})
         if not os.path.isdir(path):
             raise StoreUnavailable(f'Directory {path!r} does not exist')
         self.path = path
